@@ -101,6 +101,7 @@ def text_of(M, r: Dict[str, Any]) -> Any:
         CL.write_requirements_file(r["_results"], r["_roots"], repo=r["_repo"], multiline=True, write_to=buf)
         return ["OK", buf.getvalue()]
     except Exception as ex:  # noqa: BLE001
+        common.reraise_harness_fault(ex)     # the in-memory repository is the harness's
         return ["OK", "WRITER-ERROR " + type(ex).__name__]
 
 
@@ -303,8 +304,8 @@ def discovery_order_metamorphic(ctx: Ctx) -> List[Dict[str, Any]]:
         for order in ("sorted", "reversed", "shuffle-a", "shuffle-b"):
             prng = _random.Random(hash((ctx.seed, t, order)) & 0xFFFFFFFF)
 
-            def walk(top, order=order, prng=prng):
-                for r, dirs, files in orig_walk(top):
+            def walk(top, *wa, order=order, prng=prng, **wk):     # topdown= / onerror= / followlinks= pass through
+                for r, dirs, files in orig_walk(top, *wa, **wk):
                     if order == "sorted":
                         dirs.sort(); files.sort()
                     elif order == "reversed":
@@ -327,6 +328,10 @@ def discovery_order_metamorphic(ctx: Ctx) -> List[Dict[str, Any]]:
                     best[nm] = os.path.relpath(first.filename, root)
                 got.append(("preferred", json.dumps(best, sort_keys=True), ""))
             except BaseException as ex:  # noqa: BLE001
+                S.os.walk = orig_walk
+                if isinstance(ex, (KeyboardInterrupt, SystemExit)):
+                    raise
+                common.reraise_harness_fault(ex)     # an error of the reordering walk() is not the repository's
                 got = ["EXC", type(ex).__name__]
             finally:
                 S.os.walk = orig_walk
@@ -489,6 +494,8 @@ def replay_known(ctx: Ctx, entry: Dict[str, Any]) -> Optional[bool]:
     M = solverlib.mods()
 
     def work():
+        if d.get("compare") == "kind":     # one spelling resolves, the other fails
+            return solverlib.run_impl(d["base"], M)["kind"] != solverlib.run_impl(d["changed"], M)["kind"]
         a = text_of(M, solverlib.run_impl(d["base"], M, keep=True))
         b = text_of(M, solverlib.run_impl(d["changed"], M, keep=True))
         return a != b
